@@ -7,6 +7,39 @@ BASE_NOTE = ("Trusted: Coq 8.16.1 kernel (vm_compute for finite sweeps, no nativ
              "(Print Assumptions per theorem is checked on every run), tools/py2v.py translator, ExtrOcamlBasic extraction + "
              "ocaml/driver.ml, the Python correspondence harness; CPython/numpy behaviour is modelled, not verified.")
 CLAIMED = {
+ "C02": dict(
+   text="Theorems: for all 11 point formats the layout dumped from the running module (names, byte offsets, widths, kinds, bit ranges of every "
+        "sub-field) equals the layout typed in from the ASPRS tables (Spec/AsprsPoints.v), record lengths 20/28/26/34/57/63/30/36/38/59/67 plus "
+        "extra bytes for ANY descriptor list, extra-dimension type table 1..30, 192-byte descriptor, public header block and 54/60-byte (E)VLR "
+        "headers (field sequences extracted from write_to/read_from) equal the specification's; a generic field/bit-field record codec with both "
+        "round trips by induction over the layout, instantiated both ways (specification decoder reads what the laspy-layout encoder wrote and vice "
+        "versa). The extracted SPEC codec is the independent reference run against laspy in both directions on whole files.",
+   design="5/C02", technique="Coq proof: generated layouts = specification layouts by computation; generic layout codec round trips by induction; extracted spec codec vs laspy",
+   note=BASE_NOTE + " The transcription of the ASPRS PDF tables into Spec/*.v is a review item (trusted)."),
+ "C12": dict(
+   text="Theorems over a model of laspy.convert built on the generated tables, for all 11 x 11 format pairs, any number of points with any contents, "
+        "explicit or implicit target version: count, X/Y/Z, every common dimension (plain or bit-packed on either side), extra dimensions (descriptors and "
+        "raw bytes), VLRs and the EVLR rule are preserved; the version is the requested one or max(current, preferred), never lowered, always compatible; "
+        "an incompatible request is ELaspy; a value exceeding the narrower target field is EOverflow (never truncation) and conversely fitting values "
+        "always succeed; the lost list is exactly the source dimensions absent from the target. Correspondence over all 121 pairs x versions.",
+   design="5/C12", technique="Coq proof: induction over target dimension lists on generated tables; extracted model vs laspy.convert on all pairs",
+   note=BASE_NOTE + " Source immutability / aliasing are harness-side snapshots; extra-dimension names assumed distinct from standard and legacy alias names."),
+ "C13": dict(
+   text="Invariant theorem over arbitrary histories of Add / Remove / Assign / RoundTrip: every dimension not named by an operation keeps its raw bytes, "
+        "record length = standard + extra sizes, the extra-bytes VLR occurs exactly once (iff there are extra dimensions) with descriptors that decode to "
+        "exactly the current dimensions in order, other VLRs untouched, failed operations (standard / unknown / repeated name anywhere in the list) change "
+        "nothing; 192-byte descriptor codec round trip for the 30 types, scaled or not, and opaque arrays of 4..255 bytes; write/read round trip of the state. "
+        "The descriptor layout, masks and getters are extracted from the source each run. Correspondence after every step of random histories.",
+   design="5/C13", technique="Coq proof: state-machine invariant by induction over operation histories + descriptor codec round trip; extracted model vs laspy per step",
+   note=BASE_NOTE + " Names introduced by Add are assumed fresh (not standard, not legacy aliases); numpy dtype layout and ctypes are compared, not modelled."),
+ "C18": dict(
+   text="Theorems over an ownership state machine whose skeleton (except classes and close actions of open_las per mode, closefd stored by each "
+        "constructor, the five close methods, __exit__, the lazily created point source incl. the null reader, LasData.write's closefd constant) is "
+        "regenerated from the source on every run: for every event history, whenever laspy lets go of a stream it was given, closed <-> closefd (normal exit, "
+        "explicit close, body raising, failed open with Laspy and non-Laspy exceptions); LasData.write never closes; after a successful open for reading the "
+        "position is offset_to_point_data with or without EVLR preloading. Correspondence: full scenario matrix enumerated each run + random histories.",
+   design="5/C18", technique="Coq proof: invariant over event histories of a generated ownership state machine; exhaustive scenario matrix vs laspy",
+   note=BASE_NOTE + " Uncompressed only; mode 'w' on a non-seekable destination is refused by an assert before the stream is taken (stated separately)."),
  "C19": dict(
    text="Theorems over the lenient reader model (short reads return fewer bytes, exactly like Python streams): truncation_safe — every truncation of "
         "a valid file at ANY byte is refused or read as a prefix of the stored points; crash_safe (Proofs/CrashProofs.v) — every crash image of the "
